@@ -618,17 +618,18 @@ class R:
                 g.emit("alias64 %s %s" % (y, " ".join(sorted(set(pn)))))
                 self.probe(y, pn, homes, anchors)
         # ParOr chunking: many buckets, key ranges anywhere incl. the very top of the key space, span below and above 4x workers
-        for _ in range(max(2, n // 2)):
-            nb = r.choice([5, 9, 17, 18, 33, 40])
+        for it in range(max(6, n)):
+            nb = r.choice([1, 2, 5, 9, 17, 18, 33, 40])
             top = r.choice([0xFFFFFFFF, 0xFFFFFFFF, 0xFFFFFFFE, nb + 3, 0x80000000 + nb, r.randrange(nb, 0xFFFFFFFF)])
             ks = list(range(top - nb + 1, top + 1))
             if r.random() < 0.4:
                 ks = [k for k in ks if r.random() < 0.7] or ks[:2]
-            m = r.choice([2, 2, 3, 4])
+            m = r.choice([2, 3, 3, 4, 5])
+            dens = r.choice([0.6, 0.35, 0.2])       # sparse members: a later input brings buckets the earlier ones lack
             names = []
             for j in range(m):
                 x = g.fresh("g")
-                vals = [(k << 32) | r.choice(LOWS) for i, k in enumerate(ks) if r.random() < 0.6 or i % m == j]
+                vals = [(k << 32) | r.choice(LOWS) for i, k in enumerate(ks) if r.random() < dens or i % m == j]
                 g.emit("of64 %s %s" % (x, " ".join(map(str, vals))) if vals else "new64 %s" % x)
                 names.append(x)
             y = g.fresh("y")
